@@ -49,6 +49,11 @@ pub struct Cfg {
     /// the directive is exhausted the default schedule applies.
     #[serde(default)]
     pub directive: Vec<u8>,
+    /// count *every* non-default choice as a deviation, also the choice of which task continues
+    /// when the running one blocks (used for wide scenarios with many tasks, where free switches
+    /// alone make the schedule space explode)
+    #[serde(default)]
+    pub strict_deviations: bool,
 }
 
 pub static ACTIVE: AtomicBool = AtomicBool::new(false);
